@@ -37,6 +37,15 @@ func (ex *Exec) strIndex(s *Str, i *smt.Term) Value {
 		if i.IsConst() {
 			return tb.Const(uint64(s.C[i.Uint64()]), 8)
 		}
+		// the hex digit tables have a closed form
+		if (s.C == "0123456789abcdef" || s.C == "0123456789ABCDEF") {
+			n := tb.Extract(i, 7, 0)
+			alpha := byte('a')
+			if s.C[10] == 'A' {
+				alpha = 'A'
+			}
+			return tb.Ite(tb.Ult(n, tb.Const(10, 8)), tb.Add(n, tb.Const('0', 8)), tb.Add(n, tb.Const(uint64(alpha-10), 8)))
+		}
 		// symbolic index into a constant table
 		res := tb.Const(0, 8)
 		if len(s.C) > ex.eng.Cfg.MaxDenseIte {
